@@ -172,6 +172,7 @@ class Result:
 
 class Interp:
     MAX_STATES = 6000
+    PURE = ("__errno_location", "strlen", "abs", "strchr", "memcpy", "strcpy", "memset", "<indirect>")
 
     def __init__(self, prog, models=None, K=None, overrides=None, no_inline=(), max_depth=12):
         self.prog = prog
@@ -194,6 +195,7 @@ class Interp:
         self._locals_cache = {}
         self._live_cache = {}
         self._elem_cache = {}
+        self._arm_cache = {}
         self._root_cache = {}
 
     # ------------------------------------------------------------- values
@@ -275,6 +277,9 @@ class Interp:
         single = la == ha and lb == hb
         if op == "==":
             may = not (ha < lb or hb < la)
+            # the residual classes contain no tracked constant
+            if (a in ("NEG", "POS") and is_int(b) and b in self.Kset) or (b in ("NEG", "POS") and is_int(a) and a in self.Kset):
+                may = False
             fail = not (single and la == lb)
             return may, fail
         if op == "!=":
@@ -564,7 +569,7 @@ class Interp:
         if k == "InitListExpr":
             return [("lit", fn.name, n["id"])]
         if k == "ConditionalOperator":
-            br = st.tmp.get((fn.name, "br", strip(n["c"][0])["id"]))
+            br = st.tmp.get((fn.name, "br", n["id"]))
             if br is True:
                 return self.agg_cells(n["c"][1], st, fn)
             if br is False:
@@ -695,31 +700,12 @@ class Interp:
             if op == ",":
                 return self.rval(b, st, fn)
             if op in ("&&", "||"):
-                br = st.tmp.get((fn.name, "br", strip(a)["id"]))
-                if br is None:
-                    ta, fa = self.truth(self.rval(a, st, fn))
-                else:
-                    ta, fa = (br, not br)
-                out = set()
-                if op == "&&":
-                    if fa:
-                        out.add(0)
-                    if ta:
-                        tb, fb = self.truth(self.rval_safe(b, st, fn))
-                        if tb:
-                            out.add(1)
-                        if fb:
-                            out.add(0)
-                else:
-                    if ta:
-                        out.add(1)
-                    if fa:
-                        tb, fb = self.truth(self.rval_safe(b, st, fn))
-                        if tb:
-                            out.add(1)
-                        if fb:
-                            out.add(0)
-                return frozenset(out)
+                entered = st.tmp.get((fn.name, "br", n["id"]))
+                if entered:
+                    tb, fb = self.truth(self.rval_safe(b, st, fn))
+                    return frozenset(([1] if tb else []) + ([0] if fb else []))
+                # right operand not evaluated on this path: the left one decided
+                return frozenset({0}) if op == "&&" else frozenset({1})
             va = self.rval(a, st, fn)
             vb = self.rval(b, st, fn)
             if op in ("==", "!=", "<", "<=", ">", ">="):
@@ -738,7 +724,7 @@ class Interp:
             raise AnalysisBroken("compound assignment value used before evaluation at %s" % fn.loc(n))
         if k == "ConditionalOperator":
             c, a, b = n["c"]
-            br = st.tmp.get((fn.name, "br", strip(c)["id"]))
+            br = st.tmp.get((fn.name, "br", n["id"]))
             if br is None and "val" in c:
                 br = bool(c["val"])
             if br is True:
@@ -936,7 +922,9 @@ class Interp:
         outcomes = None
         for h in self.hooks_call:
             r = h(self, fn, n, name, argvals, st)
-            if r is not None:
+            if isinstance(r, State):
+                st = r          # the hook only annotated the state (monitor variables)
+            elif r is not None:
                 outcomes = r
                 break
         if outcomes is None:
@@ -961,6 +949,8 @@ class Interp:
                 if ("errno_set",) in s.tmp:
                     s = s.copy()
                     del s.tmp[("errno_set",)]
+                elif name in self.PURE:
+                    pass
                 elif ("g", "errno") in s.mem:
                     s = s.copy()
                     del s.mem[("g", "errno")]
@@ -1192,12 +1182,23 @@ class Interp:
                 continue
             self.stats["blocks"] += 1
             sts = [st]
+            arms = self.arm_entries(fn)
             for eid in B.elems:
                 if eid < 0:
                     continue
                 node = fn.nodes.get(eid)
                 if node is None:
                     continue
+                if eid in arms:
+                    marks = arms[eid]
+                    new = []
+                    for s in sts:
+                        if any(s.tmp.get((fn.name, "br", nid)) != dec for nid, dec in marks):
+                            s = self.prune_tmps(s, fn, eid).copy()
+                            for nid, dec in marks:
+                                s.tmp[(fn.name, "br", nid)] = dec
+                        new.append(s)
+                    sts = new
                 if not is_effect_node(node):
                     continue
                 nxt = []
@@ -1255,6 +1256,31 @@ class Interp:
             del s.tmp[k]
         return s
 
+    def arm_entries(self, fn):
+        """element id -> list of (operator node id, decision): executing that element means the path entered
+        the true arm / false arm of a ?: or the right operand of a && / || whose value is used later"""
+        if fn.name in self._arm_cache:
+            return self._arm_cache[fn.name]
+        ops = []
+        for n in fn.nodes.values():
+            if n["k"] == "ConditionalOperator" and len(n.get("c", [])) == 3:
+                ops.append((n["id"], {x["id"] for x in walk_nodes(n["c"][1])}, True))
+                ops.append((n["id"], {x["id"] for x in walk_nodes(n["c"][2])}, False))
+            elif n["k"] == "BinaryOperator" and n.get("op") in ("&&", "||"):
+                ops.append((n["id"], {x["id"] for x in walk_nodes(n["c"][1])}, True))
+        entry = {}
+        order = []
+        for bid in sorted(fn.cfg.blocks, reverse=True):
+            for e in fn.cfg.blocks[bid].elems:
+                order.append(e)
+        for (nid, ids, dec) in ops:
+            # every element of the arm that starts a block or is the first arm element in its block marks entry;
+            # it is enough (and simplest) to mark all elements of the arm
+            for e in ids:
+                entry.setdefault(e, []).append((nid, dec))
+        self._arm_cache[fn.name] = entry
+        return entry
+
     def elem_ids(self, fn):
         if fn.name not in self._elem_cache:
             self._elem_cache[fn.name] = {e for B in fn.cfg.blocks.values() for e in B.elems}
@@ -1291,16 +1317,9 @@ class Interp:
             cond = fn.nodes[B.tcond]
             ts, fs = self.split(cond, st, fn)
             out = []
-            expr_level = B.termk in ("ConditionalOperator", "BinaryOperator") and B.term in self.elem_ids(fn)
             for s in ts:
-                if expr_level:
-                    s = s.copy()
-                    s.tmp[(fn.name, "br", strip(cond)["id"])] = True
                 out.append((edges[0][0], s))
             for s in fs:
-                if expr_level:
-                    s = s.copy()
-                    s.tmp[(fn.name, "br", strip(cond)["id"])] = False
                 out.append((edges[1][0], s))
             return out
         if len(edges) == 1 and edges[0][1] in (("T",), ("F",)):
